@@ -409,7 +409,7 @@ PROPS["C19"] = dict(
     level="fault_enumeration",
     custom="crash",
     technique="crash-point enumeration: the victim process is killed by strace (SIGKILL injected at the k-th file-system effect system call, which is not executed) and the directory is judged by a checker in a new process",
-    rule=("scenario = (operation in {shard flush, consolidation, LocalClient::put, DiskCache::put with eviction, DiskCache::initialize over a dirty directory}) x (prior history in {empty, populated, leftovers of an earlier crash; for the cache put also: sub-ranges of the key being put already cached, capacity not binding}) "
+    rule=("scenario = (operation in {shard flush, consolidation, LocalClient::put, DiskCache::put with eviction, DiskCache::initialize over a dirty directory}) x (prior history in {empty, populated, leftovers of an earlier crash; for the cache put also: sub-ranges of the key being put already cached, capacity not binding; for consolidation also: shards whose records are subsets of another's, so the merged shard's name already exists}) "
           "x seed x payload size; pass 1 traces an uninjected run and lists the effect calls (creating/truncating openat, write, pwrite, rename*, unlink*, mkdir*, rmdir, ftruncate, fsync, chmod/chown, link) issued by the operating thread "
           "between two marker calls; pass 2 re-runs the victim from a fresh copy of the prepared directory once per listed call with SIGKILL injected at that call; the checker requires every file under a final name "
           "(<hash>.mdb, default.<hash>, cache item name) to be complete and consistent with its name, every record retrievable before the operation to be retrievable (shard records, stored xorbs; cached chunks where no eviction is possible), and re-open to succeed; "
